@@ -120,7 +120,9 @@ Init == /\ res = <<"init">> /\ depth = 0
            IF Profile = "near"
            THEN \E i \in DOMAIN Shapes : hist = BaseCalls(Shapes[i]) /\ S = FoldCalls(EmptyState, hist)
            ELSE S = EmptyState /\ hist = <<>>
+\* (profile "ind" makes ONE step from every initial state: the successors are checked, not expanded)
 Next == \E c \in Calls :
+          /\ Profile = "ind" => depth = 0
           /\ CallEnabled(c)
           /\ LET a == Apply(S, c) IN S' = a.S /\ res' = a.res
           /\ hist' = Append(hist, c)
